@@ -17,7 +17,8 @@ LONG = "a_rather_long_variable_name_that_goes_on_and_on_for_seventy_characters"
 POOL_SMALL = ["y", "Y", "y^", "y*", "y__0", "<state>y", "<state>Y", "<p>y", "dt"]      # "dt": a per-step name spelled like <dt>
 POOL_BIG = POOL_SMALL + ["y_", "state_y", "lploc_y", "localy", "1y", "^", "_0", LONG, "<state>" + LONG,
                          "<func>y", "<func>Y", "p_y", "global_state_y", "func_y", "y_0", "<p>Y",
-                         "dagrt_t", "Dagrt_DT", "dagrt_state", "dagrt_refcnt_y", "t", "d", "state", "p", "t>", "e"]
+                         "dagrt_t", "Dagrt_DT", "dagrt_state", "dagrt_refcnt_y", "t", "d", "state", "p", "t>", "e",
+                         "y\u00b2", "\u0394t", "k\u2081", "\u00b5"]        # non-ASCII letters and digits (str.isalnum() accepts them)
 NS = {"python": ["var", "func"], "fortran": ["var", "func", "refcount", "unique"]}
 STRIP = ["self._functions.", "self.", "dagrt_state%"]
 
